@@ -203,7 +203,10 @@ def lib_case(rng):
     inputs = [rng.choice(["a.b.yaml", "sub/c.yaml", "../outside/decoy.yaml", "../secret.yaml", "{W}/secret.yaml", "{W}/outside/decoy.yaml",
                           "../root-secrets/decoy.yaml", "ldout/decoy.yaml", "a.yaml"])]
     r = rng.random()
-    if r < 0.3:
+    if any("ldout" in x or "outside" in x or x in ("..", "/", "{W}") for x in roots[1:]) and rng.random() < 0.7:
+        # the last SetRoot tries to leave the first root: afterwards ask for what only a widened root could serve
+        inputs = [rng.choice(["ldout/decoy.yaml", "{W}/outside/decoy.yaml", "../outside/decoy.yaml", "{W}/secret.yaml", "../secret.yaml"])]
+    elif r < 0.3:
         inputs = c["opts"]["inputs"]
     elif r < 0.7:
         inputs = [rng.choice(["a.b.yaml", "sub/c.yaml", "a.yaml", "./sub/../a.b.yaml"])]
